@@ -22,7 +22,7 @@ ASSUMPTIONS = ["validation happens at producer exit only (never mid-write)",
 MIN_NONTRIVIAL = {"quick": 300, "thorough": 3000}
 REQUIRED_PROBES = ["create_exit", "rlencode", "index_pixels", "index_bins"]
 REQUIRED_FEATURES = ["op:create", "op:create-unordered", "op:merge", "op:coarsen", "op:zoomify", "op:scool",
-                     "op:cli-load", "op:cli-cload-pairs", "op:cli-cload-tabix", "tabix:max-split:>=3", "cload:records-on-unlisted-contigs",
+                     "op:cli-load", "op:cli-cload-pairs", "op:cli-cload-tabix", "op:cli-cload-hiclib", "tabix:max-split:>=3", "cload:records-on-unlisted-contigs",
                      "create:ensure_sorted", "create:ensure_sorted:all-checks-off", "big:edge-inside-run", "big:edge-on-run-start",
                      "big:edge-one-past-run-start"]
 SHARD_TIMEOUT = {"quick": 1800, "thorough": 7200}
@@ -204,7 +204,7 @@ def run_histories(ctx, shard):
             nops = int(rng.integers(3, 8))
             ops = ["create", "create_unordered"] + [
                 ["create", "create_unordered", "merge", "coarsen", "zoomify", "scool", "cli_load", "cli_cload",
-                 "cli_cload_tabix"][int(rng.integers(9))] for _ in range(nops)]
+                 "cli_cload_tabix", "cli_cload_hiclib"][int(rng.integers(10))] for _ in range(nops)]
             for oi, op in enumerate(ops):
                 try:
                     step(ctx, c, rng, op, oi, d, files, pool, hist, bt, bins, n, symm, runner, cli)
@@ -310,7 +310,7 @@ def step(ctx, c, rng, op, oi, d, files, pool, hist, bt, bins, n, symm, runner, c
         cooler.create_scool(out, bins, cells, ordered=True, **kw)
         c.feature("op:scool")
         hist.append({"op": "scool", "cells": len(cells)})
-    elif op in ("cli_load", "cli_cload", "cli_cload_tabix"):
+    elif op in ("cli_load", "cli_cload", "cli_cload_tabix", "cli_cload_hiclib"):
         if any(" " in nm for nm, _ in bt):
             return
         bed = os.path.join(d, "bins.bed")
@@ -327,6 +327,26 @@ def step(ctx, c, rng, op, oi, d, files, pool, hist, bt, bins, n, symm, runner, c
                 args.append("-N")
             r = runner.invoke(cli, args)
             c.feature("op:cli-load")
+        elif op == "cli_cload_hiclib":
+            # hiclib-style HDF5 contact list: chrms1/cuts1/chrms2/cuts2, sorted on the first side, upper triangle
+            import h5py
+            bl = gen.bt_bins_list(bt)
+            rank = {nm: i for i, (nm, _) in enumerate(bt)}
+            recs = []
+            for _ in range(int(rng.integers(20, 300))):
+                a, b_ = bl[int(rng.integers(len(bl)))], bl[int(rng.integers(len(bl)))]
+                r = (rank[a[0]], int(rng.integers(a[1], a[2])), rank[b_[0]], int(rng.integers(b_[1], b_[2])))
+                if (r[0], r[1]) > (r[2], r[3]):
+                    r = (r[2], r[3], r[0], r[1])
+                recs.append(r)
+            recs.sort()
+            h5p = os.path.join(d, f"in{oi}.hiclib.h5")
+            with h5py.File(h5p, "w") as f:
+                for k_, nm_ in enumerate(("chrms1", "cuts1", "chrms2", "cuts2")):
+                    f.create_dataset(nm_, data=np.array([r[k_] for r in recs], dtype=np.int64))
+            args = ["cload", "hiclib", "--chunksize", str(int([1, 2, 3, 5, 11, 50, 10**6][int(rng.integers(7))])), bed, h5p, out]
+            r = runner.invoke(cli, args)
+            c.feature("op:cli-cload-hiclib")
         elif op == "cli_cload_tabix":
             import pysam
             bl = gen.bt_bins_list(bt)
